@@ -163,7 +163,10 @@ class Axes:
                     elif i in (-1, -2):
                         self.ext(t, 2 + i, "x.shape[%d]" % i)
             elif k == "attr" and self.use_names:
+                from .shapes import canon
                 nm = t.args[1].lstrip("_")
+                if nm not in NAME_AXIS and nm not in FIELD_AXIS:
+                    nm = canon(self.vfg, nm)   # a private storage name of a conventionally named extent
                 if nm in NAME_AXIS:
                     self.ext(t, NAME_AXIS[nm], f"attribute name '{t.args[1]}'")
                 elif nm in FIELD_AXIS:
